@@ -8,10 +8,19 @@ every trie state, collapse level and hash function:
   rollback_keeps_old_keys  hence Rollback and RollbackTrie never remove a storage entry that existed before the
                            rolled-back commit: whatever the checkpoint could resolve it still can
   rollback_root            Rollback shows the saved (hash, weight) reference again (the empty trie for weight 0)
+  C13_rollback             MAIN: checkpoint t0 stored and remembered by SaveRoot; any changes leading to a trie for t1;
+                           Commit(any level) + batch; Rollback ⇒ the trie is the checkpoint reference again, every node
+                           of t0 is still in storage, every key only the rolled-back commit created is gone, the
+                           bookkeeping lists are empty (no GC pass between commit and rollback; collision-freeness
+                           relative to a subtree-closed set S ∋ t0, t1)
+  C13_checkpoint_answers   and the rolled-back trie then answers every block of the checkpoint: owner key, honest proof
+                           bytes, proof verifies to (hash t0, owner's value)
   rollback_clears_queues   both entry points forget the rolled-back commit's created / pending-deletion lists
                            (fix 6d30809 for RollbackTrie), so later GC passes cannot delete checkpoint nodes on its behalf
 -/
 import Verif.Lemmas.WmptOps
+import Verif.Lemmas.WmptRollback
+import Verif.Lemmas.WmptSpec
 namespace Verif.Props.C13
 open Verif.Wmpt
 
@@ -60,5 +69,34 @@ theorem rollback_clears_queues (H : Bytes → Bytes) (t : WT) (node : WN)
     (rollback t).1.created = [] ∧ (rollback t).1.tempDeleted = [] ∧ (rollback t).1.deleted = [] ∧
     (rollbackTrie H t node).1.created = [] ∧ (rollbackTrie H t node).1.tempDeleted = [] ∧ (rollbackTrie H t node).1.deleted = [] := by
   refine ⟨rfl, rfl, rfl, ?_, ?_, ?_⟩ <;> (unfold rollbackTrie; simp only; split; (next h => exact absurd h hne); rfl)
+
+/-- MAIN: rolling back a commit restores the checkpoint exactly (see the header for the reading of the hypotheses) -/
+theorem C13_rollback (H : Bytes → Bytes) (hlen : ∀ x, (H x).length = 32) {S : PT → Prop} (hcl : SubClosed S)
+    (hinj : HashInj H S) (lvl : Int) (t : WT) (t0 t1 : PT) (hdb : t.hasDb = true)
+    (hcp : StoredAll H t.store t0) (hold : t.oldRoot = (PT.hash H t0, t0.weight)) (hw0 : 0 < t0.weight)
+    (h1 : RepS H t.store t.root t1) (hp : Proper t.root) (hd : t.root.dirty = true) (hS0 : S t0) (hS1 : S t1) :
+    let c := commit H t lvl
+    let r := (rollback { c.1 with store := c.1.store.apply c.2 }).1
+    r.root = .hashRef (PT.hash H t0) t0.weight ∧ StoredAll H r.store t0 ∧
+      (∀ k ∈ c.1.created, r.store.get k = none) ∧ r.created = [] ∧ r.tempDeleted = [] ∧ r.pending = [] ∧ r.deleted = [] :=
+  rollback_restores H hlen hcl hinj lvl t t0 t1 hdb hcp hold hw0 h1 hp hd hS0 hS1
+
+/-- after the rollback every block of the checkpoint is answered from storage with the honest, verifying proof -/
+theorem C13_checkpoint_answers (H : Bytes → Bytes) (hlen : ∀ x, (H x).length = 32) {S : PT → Prop} (hcl : SubClosed S)
+    (hinj : HashInj H S) (lvl : Int) (t : WT) (t0 t1 : PT) (hdb : t.hasDb = true)
+    (hcp : StoredAll H t.store t0) (hold : t.oldRoot = (PT.hash H t0, t0.weight))
+    (h1 : RepS H t.store t.root t1) (hp : Proper t.root) (hd : t.root.dirty = true) (hS0 : S t0) (hS1 : S t1)
+    (hw : t0.weight < 2 ^ 64) (hsz : PTSize t0) (b fuel : Nat) (hb1 : 1 ≤ b) (hb : b ≤ t0.weight) (hf : 2 * t0.depth ≤ fuel) :
+    let c := commit H t lvl
+    let r := (rollback { c.1 with store := c.1.store.apply c.2 }).1
+    ∃ k v, ownerSpec t0.entries b = some (k, v) ∧
+      (getBlockProof H true r.store fuel r.root b []).res = .ok (k, (t0.proofPairs H b).map Cbor.encBase) ∧
+      verifyPairs H ((t0.proofPairs H b).map PairD.ok) b = .ok (t0.hash H, v) := by
+  intro c r
+  obtain ⟨hr, hst, _⟩ := rollback_restores H hlen hcl hinj lvl t t0 t1 hdb hcp hold (by omega) h1 hp hd hS0 hS1
+  obtain ⟨k, v, ho, hp', hv⟩ := reopen_verifies H hlen r.store t0 b fuel hst hw hsz hb1 hb hf
+  rw [owner_eq_ownerSpec t0 b hb1 hb] at ho
+  refine ⟨k, v, ho, ?_, hv⟩
+  rw [hr]; exact hp'
 
 end Verif.Props.C13
